@@ -452,6 +452,27 @@ class CallMixin:
                 if m == 'starts_with' and self.tyof(args[0]).kind == 'ptr':
                     o = self.hoist_pure(bt, obj)
                     return f'(cxx_rfind0_cstr({o}.p, {o}.n, {A(0)}) == 0)'
+        if fam == 'atomic':
+            # std::atomic<T> under sequential semantics (the lowering drops concurrency; C36 is not applicable)
+            if m == 'load':
+                return obj
+            if m == 'store':
+                return f'((void)({obj} = {A(0)}))'
+            if m in ('fetch_add', 'fetch_sub'):
+                if self.cond_depth:
+                    raise LoweringError('atomic fetch_add in a conditional operand')
+                t0 = self.hoist(bt.args[0], obj)
+                self.pre.append(f'{obj} = {obj} {"+" if m == "fetch_add" else "-"} ({A(0)});')
+                return t0
+            if m in ('compare_exchange_weak', 'compare_exchange_strong'):
+                e = A(0)
+                return f'(({obj} == {e}) ? ({obj} = {A(1)}, (_Bool)1) : ({e} = {obj}, (_Bool)0))'
+            if m == 'exchange':
+                if self.cond_depth:
+                    raise LoweringError('atomic exchange in a conditional operand')
+                t0 = self.hoist(bt.args[0], obj)
+                self.pre.append(f'{obj} = {A(0)};')
+                return t0
         if fam == 'map':
             name = self.ctype(bt)
             for a in args:
@@ -475,11 +496,24 @@ class CallMixin:
                     self.helpers.add('assert')
                     return f'(({obj}).n = 0, &({obj}).e[1])'
                 return f'(({obj}).n ? (({obj}).n = 0, (uint64_t)1) : (uint64_t)0)'
-            if m in ('try_emplace', 'emplace') and len(args) == 2:
-                # single-key view: inserts only when the entry is absent (the returned pair is modelled by its bool)
-                return f'(({obj}).n ? (_Bool)0 : (({obj}).e[0].second = {self.value_of(args[1])}, ({obj}).n = 1, (_Bool)1))'
-            if m == 'insert_or_assign' and len(args) == 2:
-                return f'(({obj}).e[0].second = {self.value_of(args[1])}, ({obj}).n = 1, (_Bool)1)'
+            if m in ('try_emplace', 'emplace', 'insert_or_assign') and len(args) == 2:
+                # single-key view: try_emplace/emplace insert only when the entry is absent, insert_or_assign always assigns;
+                # the result is the library's pair<iterator, bool> (bool = "a new entry was inserted")
+                if self.cond_depth:
+                    raise LoweringError(f'map::{m} in a conditional operand')
+                ins = self.tmp('__ins')
+                self.pre.append(f'_Bool {ins} = !({obj}).n;')
+                val = self.value_of(args[1])
+                if m == 'insert_or_assign':
+                    self.pre.append(f'({obj}).e[0].second = {val}; ({obj}).n = 1;')
+                else:
+                    self.pre.append(f'if ({ins}) {{ ({obj}).e[0].second = {val}; ({obj}).n = 1; }}')
+                rt = self.tyof(n)
+                try:
+                    pct = self.ctype(rt)
+                    return f'(({pct}){{&({obj}).e[0], {ins}}})'
+                except LoweringError:
+                    return ins
             if m == 'at' and len(args) == 1:
                 o = obj
                 self.maythrow_inline(f'!({o}).n', 'std::out_of_range')
